@@ -816,7 +816,7 @@ def c17_directed(ctx):
         return
     for name, sig, what in C17_WITNESSES:
         sc = os.path.join(VERIF, "corpus", "C17_directed", name)
-        run = ctx.run_family("frames", 0, extra=sc, tag=".d7." + name, model=False, env={"MPBH_HANG_MS": "4000"}, timeout=120)
+        run = ctx.run_family("frames", 0, extra=sc, tag=".d7." + name, model=False, env={"MPBH_HANG_MS": "4000"}, timeout=120, expected_to_fail=True)
         ctx.cov["evaluations"] += 1
         hung = run["rc"] != 0 and re.search(r"hang: (wait|livelock)", run["log"]) is not None
         if hung:
@@ -1111,3 +1111,114 @@ def check_C10(ctx):
                                           {"family": fam, "run_seed": run["seed"], "n": n, "race": True})
                     found = True
     report_broken_obligations(ctx, found)
+
+
+
+# ---------------------------------------------------------------- C01 / C02
+LIFE_DEPS = CONT_DEPS | {"ContainerLife.v", "ContainerProgress.v", "GenChecks.v", "gen/GenApi.v", "Sync.v", "SyncProofs.v"}
+
+
+def late_runs(ctx, n_quick, n_thorough):
+    runs = []
+    reps = 2 if ctx.tier == "quick" else 10
+    if ctx.replay:
+        rp = json.load(open(ctx.replay))
+        if rp.get("family") == "late" and "case" in rp:
+            sc = write_script(ctx, "replay_late.txt", rp["case"])
+            for rep in range(30):
+                runs.append(ctx.run_family("late", 0, extra=sc, tag=".replay%d" % rep, model=False))
+        return runs
+    for sc in corpus_scripts("C02", "late"):
+        for rep in range(reps):
+            runs.append(ctx.run_family("late", 0, extra=sc, tag=".corpus%d." % rep + os.path.basename(sc), model=False))
+    if ctx.tier == "quick":
+        runs.append(ctx.run_family("late", n_quick, model=False))
+    else:
+        for i in range(8):
+            runs.append(ctx.run_family("late", n_thorough // 8, seed=ctx.seed * 1000 + i, model=False))
+    return runs
+
+
+def late_check(ctx, want_values, sigs):
+    """the late family: panics and hangs always count; the values of the late calls when want_values"""
+    found = False
+    for run in late_runs(ctx, 400, 24000):
+        lines = read_lines(os.path.join(run["dir"], "cases.txt"))
+        cases = group_cases(lines)
+        if run["rc"] != 0:
+            log = run["log"]
+            m = re.search(r"hang: ([\w-]+)", log)
+            pm = re.search(r"^(panic: .*|fatal error: .*)$", log, re.M)
+            if pm:
+                sig = "panic-" + re.sub(r"[^a-zA-Z]+", "-", pm.group(1))[:60].strip("-")
+                what = "the library panicked: " + pm.group(1) + "\n" + log[:1500]
+            elif m:
+                sig, what = "hang-" + m.group(1), "a call did not return within the timeout: " + m.group(1) + "\n" + log[-800:]
+            else:
+                sig, what = "late-run-failed", "the run failed: " + log[-1500:]
+            last = cases[max(cases)][:1] if cases else []
+            if sig not in sigs:
+                sigs.add(sig)
+                ctx.add_violation(what, sig, {"family": "late", "run_seed": run["seed"], "n": run["n"], "case": last,
+                                              "note": "scheduling dependent: the replay repeats the case 30 times"})
+            found = True
+        for k in sorted(cases):
+            body = cases[k]
+            if body[-1].strip() != "end":
+                continue
+            ctx.cov["evaluations"] += 1
+            ctx.distinct(("late",) + tuple(body[0].split()[3:]))
+            if k < 1:
+                ctx.sample({"late_case": body[:8]})
+            if not want_values:
+                continue
+            bad = None
+            for l in body[1:]:
+                f = l.split()
+                if f[0] == "late" and f[1] == "add" and l != "late add nilbar=1 errdone=1":
+                    bad = ("Add after Wait: " + l, "late-add-result")
+                elif f[0] == "late" and f[1] == "write" and l != "late write n=0 errdone=1":
+                    bad = ("Write after Wait: " + l, "late-write-result")
+                elif f[0] == "late" and f[1] == "bar" and (f[3] != "same=1" or f[5] != "running=0"):
+                    bad = ("late bar calls changed what the getters return or the bar still runs: " + l, "late-bar-result")
+                elif f[0] == "late" and f[1] == "bar" and f[4] != "one=1":
+                    bad = ("after Wait a bar is neither exactly completed nor exactly aborted: " + l, "late-bar-not-exactly-one")
+                elif f[0] == "storm" and ("add_other=0" not in l or "write_other=0" not in l):
+                    bad = ("a racing Add / Write returned neither success nor ErrDone: " + l, "racing-call-result")
+                elif f[0] == "BAD":
+                    bad = (l, "late-bad")
+            if bad and bad[1] not in sigs:
+                sigs.add(bad[1])
+                ctx.add_violation(bad[0], bad[1], {"family": "late", "run_seed": run["seed"], "n": run["n"], "k": k, "case": body[:1]})
+                found = True
+            elif bad:
+                found = True
+    return found
+
+
+@check
+def check_C02(ctx):
+    ctx.cov["rule"] = ("late family: 1-4 goroutines issue 3-12 (thorough: up to 32) random API calls each (Add, Write, priority, increments, "
+                       "totals, abort, getters, traversals) on a container of 1-5 bars with scheduling perturbation at the hook points while "
+                       "the container is ended by Wait, Shutdown, cancellation or a Wait racing with Add, then every call is repeated after "
+                       "Wait; plus the container scenario families (panic / hang / late results); distinct = configuration of the case")
+    ctx.assumptions = ["documented panics are not exercised (nil reader/writer to a proxy, MustAdd after done, uninitialised WC)",
+                       "a panic or a hang is observed, not excluded by proof; the theorems cover the select shapes, the exited bar and the "
+                       "heap manager's end"]
+    sigs = set()
+    frames_check(ctx, {"LATE_WRITE", "LATE_ADD", "HM_END", "HM_PUSH"}, M.c02_monitor, 200, 6000, LIFE_DEPS | {"Props/C02.v"}, fams=ALLFAMS)
+    if ctx.harness:
+        if late_check(ctx, True, sigs):
+            ctx.notes.append("late family reported")
+
+
+@check
+def check_C01(ctx):
+    ctx.cov["rule"] = (FRAME_RULE + "; every scenario ends with Wait under a hang timeout (frames / sched with perturbation / faults), and the late "
+                       "family ends containers by Wait, Shutdown, cancellation and Wait racing with Add under concurrent API calls")
+    ctx.assumptions = ["fairness of the Go scheduler", "a hang is a wait of the harness on the library that exceeds 60 s"]
+    sigs = set()
+    frames_check(ctx, {"HM_END", "HM_STATE", "CT_DONE", "CT_EXIT", "BAR_EXIT", "CT_RENDERBEGIN", "HM_ITERREQ"}, M.c01_monitor, 300, 8000,
+                 LIFE_DEPS | {"Props/C01.v"}, fams=ALLFAMS)
+    if ctx.harness:
+        late_check(ctx, False, sigs)
